@@ -183,6 +183,25 @@ func ruleMergeArms(c *Ctx, r *R) {
 			incs := 0
 			cmpOK := false
 			handedOver := false
+			// the completion test as the condition of the loop around the select (`for nDone < 2 { select {...} }`): it is
+			// evaluated after every arm, including this one
+			ast.Inspect(fd.Body, func(m ast.Node) bool {
+				fs, ok := m.(*ast.ForStmt)
+				if !ok || fs.Cond == nil || !(fs.Body.Pos() <= cc.Pos() && cc.End() <= fs.Body.End()) {
+					return true
+				}
+				be, ok := fs.Cond.(*ast.BinaryExpr)
+				if !ok || (be.Op != token.LSS && be.Op != token.NEQ) {
+					return true
+				}
+				if _, isID := be.X.(*ast.Ident); !isID {
+					return true
+				}
+				if tv, has := info.Types[be.Y]; has && tv.Value != nil && tv.Value.ExactString() == itoa(len(ins)) {
+					cmpOK = true
+				}
+				return true
+			})
 			// hand-over: when this input closes the remaining ones are given to the merger for one input less and the function
 			// returns (merge3: `merge2(out, in1, in2); return`) - the inputs passed are exactly the others, each once
 			isHandOver := func(call *ast.CallExpr) bool {
